@@ -146,6 +146,7 @@ def build(case, provider):
                 lines.append(f"REPEAT:{a['repeat']}")
             if a.get("duration"):
                 lines.append(f"DURATION:{R.fmt_dur(a['duration'])}")
+            lines += [f"{n_}:{v_}" for n_, v_ in (a.get("extra") or [])]      # the other properties an alarm may carry do not move its times
             lines.append("END:VALARM")
         lines.append(f"END:{cls.name}")
         comp = cls.from_ical("\r\n".join(lines) + "\r\n")
@@ -186,6 +187,8 @@ def build(case, provider):
             al.REPEAT = a["repeat"]
         if a.get("duration"):
             al.DURATION = td(a["duration"])
+        for n_, v_ in (a.get("extra") or []):
+            al.add(n_, v_)
         alarms.append(al)
         if path == "api":
             comp.add_component(al)
@@ -370,6 +373,9 @@ def cases(draw):
         a["repeat"] = draw(st.sampled_from([None, 0, 1, 2, 5]))
         a["duration"] = draw(st.one_of(st.none(), _dur, _dur))
         a["how"] = draw(st.sampled_from(["attr", "attr", "add", "add-typed", "item-typed", "add-ddd"]))
+        a["extra"] = draw(st.lists(st.sampled_from([["PROXIMITY", "ARRIVE"], ["PROXIMITY", "DEPART"], ["DESCRIPTION", "wake up"], ["SUMMARY", "s"], ["UID", "alarm-1"],
+                                                    ["ATTACH", "http://example.com/sound.wav"], ["ATTENDEE", "mailto:a@example.com"], ["X-APPLE-DEFAULT-ALARM", "TRUE"],
+                                                    ["X-WR-ALARMUID", "u"], ["RELATED-TO", "other"], ["X-LIC-ERROR", "none"]]), max_size=2, unique_by=lambda e: e[0]))
         alarms.append(a)
     twin = False
     if start is not None and start["k"] in ("utc", "zoned") and draw(st.integers(0, 2)) == 0:
